@@ -10,8 +10,11 @@ RULE = ("seeded histories (gens2.gen_c16 / gen_c16_bool): a dense HEALPix array 
 
 
 def gen(rng):
-    if rng.random() < 0.1:
+    r = rng.random()
+    if r < 0.1:
         return gens2.gen_c16_bool(rng)
+    if r < 0.2:
+        return gens2.gen_c16_rec(rng)      # RING-addressed writes through field views
     return gens2.gen_c16(rng)
 
 
